@@ -44,6 +44,7 @@ class DeepONet(Model):
         self.trunk = trunk_net
         self.branch = branch_net
         self._finalize_trunk_and_branch(output_space, output_neurons)
+        self._branch_cache = (None, None, None)
 
     def _check_trunk_and_branch_correct(self, trunk_net, branch_net):
         """Checks if the trunk and branch net are compatible
@@ -90,13 +91,33 @@ class DeepONet(Model):
 
     def _forward_branch(self, function_set, iteration_num=-1, device="cpu"):
         """Branch evaluation for training."""
-        if iteration_num != function_set.current_iteration_num:
+        # without an iteration number (e.g. validation) nothing is known about the
+        # state of the cached values -> always evaluate
+        new_iteration = (
+            iteration_num is None
+            or iteration_num != function_set.current_iteration_num
+        )
+        if new_iteration:
             function_set.current_iteration_num = iteration_num
             function_set.sample_params(device=device)
+        # the cached branch output can only be reused if it was computed by this
+        # network for this function set in this iteration (other conditions may use
+        # the same network with a different function set, or the same function set
+        # with another network)
+        cached_set, cached_iteration, cached_out = self._branch_cache
+        if (
+            new_iteration
+            or cached_set is not function_set
+            or cached_iteration != iteration_num
+            or cached_out is not self.branch.current_out
+        ):
             discrete_fn_batch = self.branch._discretize_function_set(
                 function_set, device=device
             )
             self.branch(discrete_fn_batch)
+            self._branch_cache = (
+                function_set, iteration_num, self.branch.current_out
+            )
 
     def fix_branch_input(self, function, device="cpu"):
         """Fixes the branch net for a given function. this function will then be used
